@@ -13,11 +13,11 @@ CONSTANTS
   PrefTexts = {}
   PrefClass = "RangeError"
   PrefRest = "t1"
-  Stamps = {5, 999}
+  Stamps = {999}
   MaxNow = 2
   Shapes = {"ok", "short"}
   LevelKinds = {"node", "module", "param"}
-  Kinds = {"updateItem"}
+  Kinds = {"updateEvent", "updateItem"}
   Behs = {"ok", "oneshot", "raise"}
   InitDescs <- GenInit
   Descs <- GenInit
